@@ -3791,7 +3791,7 @@ func (c *BytecodeCompiler) compileAwaitExpressionNode(node *ast.AwaitExpressionN
 func (c *BytecodeCompiler) compileReturnExpressionNode(node *ast.ReturnExpressionNode) {
 	location := node.Location()
 	if node.Value != nil {
-		c.emitReturn(location, node.Value)
+		c.emitExplicitReturn(location, node.Value)
 	} else {
 		c.emit(location.StartPos.Line, bytecode.NIL)
 		c.emitReturn(location, nil)
@@ -8495,6 +8495,18 @@ func (c *BytecodeCompiler) emitYield(location *position.Location, value ast.Node
 // Provide `nil` as the value when the returned value is already
 // on the stack.
 func (c *BytecodeCompiler) emitReturn(location *position.Location, value ast.Node) {
+	c.emitReturnWithValue(location, value, false)
+}
+
+// Emit a `return value` statement written in the source.
+// Unlike the implicit return at the end of a body it must not be skipped
+// when the previous instruction is a return: a forward jump
+// (eg. the end of `if cond then return 1 end`) may land right here.
+func (c *BytecodeCompiler) emitExplicitReturn(location *position.Location, value ast.Node) {
+	c.emitReturnWithValue(location, value, true)
+}
+
+func (c *BytecodeCompiler) emitReturnWithValue(location *position.Location, value ast.Node, explicit bool) {
 	if c.mode == breakpointBytecodeCompilerMode {
 		switch c.lastOpCode {
 		case bytecode.RETURN_FINALLY, bytecode.YIELD:
@@ -8511,10 +8523,12 @@ func (c *BytecodeCompiler) emitReturn(location *position.Location, value ast.Nod
 		}
 	}
 
-	switch c.lastOpCode {
-	case bytecode.RETURN, bytecode.RETURN_FIRST_ARG,
-		bytecode.RETURN_SELF, bytecode.RETURN_FINALLY:
-		return
+	if !explicit {
+		switch c.lastOpCode {
+		case bytecode.RETURN, bytecode.RETURN_FIRST_ARG,
+			bytecode.RETURN_SELF, bytecode.RETURN_FINALLY:
+			return
+		}
 	}
 
 	if c.isGenerator {
